@@ -101,7 +101,7 @@ pub fn run_staking(swarm: &Swarm, given: Option<&[Op]>, mut rng: Option<&mut Rng
     let mut i = 0usize;
     let first = gen::first_ops(&e);
     loop {
-        if !e.viol.is_empty() || e.end_run {
+        if e.must_stop() || e.end_run {
             break;
         }
         let op = match given {
@@ -173,14 +173,14 @@ fn pair_no_oracle(swarm: &Swarm, ops: &[Op], a: &mut Eval, known: &Known) {
     // violations of run B itself that belong to C15/C16 (e.g. a panic without oracle) are reported
     for v in &b.viol {
         if v.prop == "C15" || v.prop == "C16" {
-            a.viol.push(Violation { prop: "C15", clause: "works_without_oracle", step: v.step, msg: format!("with no oracle configured: [{} {}] {}", v.prop, v.clause, v.msg) });
+            a.viol.push(Violation { prop: "C15", clause: "works_without_oracle", step: v.step, stop: true, msg: format!("with no oracle configured: [{} {}] {}", v.prop, v.clause, v.msg) });
             return;
         }
     }
     let n = a.outcomes.len().min(b.outcomes.len());
     for i in 0..n {
         if a.outcomes[i] != b.outcomes[i] {
-            a.viol.push(Violation { prop: "C15", clause: "no_oracle_same_outcomes", step: i + 1, msg: format!("step {} ({}) with oracle: ok={} N={} L={}; without oracle: ok={} N={} L={}", i + 1, ops.get(i).map(op_kind).unwrap_or("?"), a.outcomes[i].0, a.outcomes[i].1, a.outcomes[i].2, b.outcomes[i].0, b.outcomes[i].1, b.outcomes[i].2) });
+            a.viol.push(Violation { prop: "C15", clause: "no_oracle_same_outcomes", step: i + 1, stop: true, msg: format!("step {} ({}) with oracle: ok={} N={} L={}; without oracle: ok={} N={} L={}", i + 1, ops.get(i).map(op_kind).unwrap_or("?"), a.outcomes[i].0, a.outcomes[i].1, a.outcomes[i].2, b.outcomes[i].0, b.outcomes[i].1, b.outcomes[i].2) });
             return;
         }
     }
